@@ -55,7 +55,15 @@ def _run_lines(cmd, lines, timeout, idle=None):
     data = "".join(l + "\n" for l in lines)
     if idle is None:
         try:
-            p = subprocess.run(cmd, input=data, capture_output=True, text=True, env=env, timeout=timeout)
+            for attempt in range(6):
+                try:
+                    p = subprocess.run(cmd, input=data, capture_output=True, text=True, env=env, timeout=timeout)
+                    break
+                except OSError:
+                    # the executable is being re-linked by a concurrent `lake build` / `cargo build` of another check (ETXTBSY / ENOENT)
+                    if attempt == 5:
+                        raise
+                    time.sleep(2.0)
             out = p.stdout.split("\n")
             return out[:-1], p.returncode      # the piece after the last newline is never an answer
         except subprocess.TimeoutExpired as e:
@@ -64,7 +72,14 @@ def _run_lines(cmd, lines, timeout, idle=None):
                 out = out.decode("utf-8", "replace")
             return out.split("\n")[:-1], "timeout"
     import threading, selectors
-    p = subprocess.Popen(cmd, stdin=subprocess.PIPE, stdout=subprocess.PIPE, stderr=subprocess.DEVNULL, env=env)
+    for attempt in range(6):
+        try:
+            p = subprocess.Popen(cmd, stdin=subprocess.PIPE, stdout=subprocess.PIPE, stderr=subprocess.DEVNULL, env=env)
+            break
+        except OSError:
+            if attempt == 5:
+                raise
+            time.sleep(2.0)
 
     def feed():
         try:
